@@ -44,7 +44,7 @@ ASSUMPTIONS = [
     "(1e-6,1e-2) are excluded from InvMass/Der3E comparisons",
     "run() comparisons use odd grids (3^3, 5^3): even grids contain k-points on the box boundary, where the "
     "numerical derivative straddles the wrap of SystemKP (k inside the box only, as the statement says)",
-    "quick: matrices {1 band, sigma_y}, dk {1e-3,1e-4}, 4 lattices; thorough adds sigma_x, sigma_z, dk=1e-2, triclinic",
+    "quick: matrices {1 band, sigma_y}, dk {1e-3,1e-4}, 4 lattices (+ triclinic for the composite models); thorough adds sigma_x, sigma_z, dk=1e-2, triclinic everywhere",
 ]
 
 EPS = np.finfo(float).eps
@@ -273,8 +273,11 @@ def run_derivatives(case, with_tab):
         try:
             systems[m], model, recip, J = build_system(case, m, model)
         except Exception as e:
-            return {"ok": False, "key": f"SystemKP:raises:{type(e).__name__}", "nontrivial": False,
-                    "detail": f"{case} with {m} analytic derivatives: {type(e).__name__}: {e}"}
+            import traceback
+            where = ":find_shells" if "find_shells" in traceback.format_exc() else ""
+            return {"ok": False, "key": f"SystemKP:raises:{type(e).__name__}{where}", "nontrivial": True,
+                    "detail": f"{case} with {m} analytic derivatives: SystemKP(...) raises {type(e).__name__}: {e}"
+                              + (" (no finite-difference shells found for recip_lattice*finite_diff_dk)" if where else "")}
     why = check_shells(systems[0], case, recip)
     if why:
         s = systems[0]
@@ -456,7 +459,7 @@ def cases(tier, seed):
                     for dk in dks:
                         yield {"kind": "der", "ham": ["mono", list(p), mat], "lat": lat, "coords": coords, "dk": dk}
     for name in MODELS:
-        for lat in lats:
+        for lat in (lats + ("tric",) if quick else lats):     # the triclinic lattice is in quick for the composite models
             for coords in ("cart", "red"):
                 for dk in dks:
                     yield {"kind": "tab", "ham": ["model", name], "lat": lat, "coords": coords, "dk": dk}
